@@ -251,6 +251,20 @@ def main(rep):
                 real = {r: r for r in roots}
                 real["."] = "/cwd"
                 mcases.append(("m%d" % len(mcases), mc.main_case(args=args, real=real, mounted=["/"], slots=[]), list(combo)))
+        # roots given through a symbolic link, with `..` or a trailing slash: what counts is the directory each RESOLVES
+        # to (a store path is made from the resolved path of the written file)
+        spelled = {"/srv/link": "/a/b", "/x/../a/c": "/a/c", "/a/b/": "/a/b", "/lnk/deep": "/d", "/a/./b/c": "/a/b/c", "/home": "/a"}
+        for k in (2, 3):
+            for combo in itertools.product(sorted(spelled) + ["/a/c", "/d"], repeat=k):
+                if not any(c in spelled for c in combo) or (rep.tier == "quick" and (len(mcases) % 3) and k == 3):
+                    continue
+                args = []
+                for r in combo:
+                    args += ["-w", r]
+                real = {r: r for r in roots}
+                real.update(spelled)
+                real["."] = "/cwd"
+                mcases.append(("m%d" % len(mcases), mc.main_case(args=args, real=real, mounted=["/"], slots=[]), [spelled.get(c, c) for c in combo]))
         if not found:
             impl, model, problems2 = vlib.correspond(exe_impl, exe_model, "main", [(c, t) for c, t, _ in mcases], sandbox=True)
             problems += problems2
@@ -275,7 +289,7 @@ def main(rep):
         rep.cov["input_distribution"] = {"names_exhaustive_and_random": sum(1 for c in pc if c[2][0] == "ext"),
                                          "store_paths": sum(1 for c in pc if c[2][0] == "sp"), "world_histories": len(wcases), "watch_root_tuples": len(mcases), "single_faults": len(fcases)}
         rep.cov["rule"] = ("extension: every name over {a,b,.,/} up to length %d plus random names; store paths with 0..1234 collisions; "
-                           "every single failing call of the passes over a file / history file / project / taken name (call log and watched tree judged); common parent: every tuple of 1-3 watch roots over {/, /a, /a/b, /a/c, /d, /a/b/c} through the real main(); "
+                           "every single failing call of the passes over a file / history file / project / taken name (call log and watched tree judged); common parent: every tuple of 1-3 watch roots over {/, /a, /a/b, /a/c, /d, /a/b/c} through the real main(), also given through symbolic links, `..` and trailing slashes (the resolved directories count); "
                            "file names with blanks, a literal ' (deleted)' suffix, tildes, tabs; confinement: random handler histories (files, history paths, projects, deletions, reloads, restarts) with the call log of every "
                            "operation checked against the configured locations and the watched tree compared before/after each timeout pass; every new version must sit at "
                            "store_root/<relative path>/<version>[-k]<extension> of a file whose write was accepted and equal its source; "
